@@ -190,17 +190,18 @@ def solve_sat(
 
     def unassign_to(level):
         nonlocal prop_head
-        while len(trail_lim) > level:
-            trail_lim.pop()
-        target = trail_lim[-1] if trail_lim else 0
-        while len(trail) > target:
-            var = trail.pop()
-            phase[var] = vals[var] == 1
-            vals[var] = UNDEF
-            if not in_heap[var]:
-                heappush(var_heap, (-activity[var], var))
-                in_heap[var] = True
-        prop_head = len(trail)
+        if len(trail_lim) > level:
+            # Keep everything assigned at levels <= level (level 0 holds units, assumptions, learned facts)
+            target = trail_lim[level]
+            del trail_lim[level:]
+            while len(trail) > target:
+                var = trail.pop()
+                phase[var] = vals[var] == 1
+                vals[var] = UNDEF
+                if not in_heap[var]:
+                    heappush(var_heap, (-activity[var], var))
+                    in_heap[var] = True
+        prop_head = min(prop_head, len(trail))
 
     def find_pure_literals():
         pos_count = [0] * (n_vars + 1)
@@ -493,19 +494,29 @@ def solve_sat(
                     return Result(sol, len(sol), decisions, propagations)
                 return Result(sol, len(sol), decisions, propagations, solutions=tuple(all_solutions))
 
+            if dec_level == 0:
+                # Everything is forced at level 0, so there is no other model
+                return Result(
+                    all_solutions[0], len(all_solutions[0]), decisions, propagations, solutions=tuple(all_solutions)
+                )
+
+            # Literals assigned last come first: after the backjump to level 0 they are the unassigned ones
             blocking = [(-v if vals[v] == 1 else v) for v in range(1, n_vars + 1) if vals[v] != UNDEF]
+            blocking.sort(key=lambda lit: levels[lit_var(lit)], reverse=True)
             clause_idx = len(clauses) + len(learned)
             learned.append(blocking)
-            lbd_scores.append(n_vars)
+            lbd_scores.append(0)  # never dropped by reduce_db
 
-            if len(blocking) >= 2:
-                add_watch(blocking[0], clause_idx)
-                add_watch(blocking[1], clause_idx)
-            elif len(blocking) == 1:
-                add_watch(blocking[0], clause_idx)
-
+            unit = len(blocking) == 1 or levels[lit_var(blocking[1])] == 0
             unassign_to(0)
             dec_level = 0
+
+            if unit:
+                assign(lit_var(blocking[0]), blocking[0] > 0, clause_idx)
+            else:
+                add_watch(blocking[0], clause_idx)
+                add_watch(blocking[1], clause_idx)
+
             conflict = propagate()
             continue
 
